@@ -5,24 +5,24 @@
 From TV Require Import Base Index AP Iter Mem Spec Guards Run Ops.
 
 (* scalar operations by code *)
-Definition zbin (code : Z) (x y : Z) : option Z :=
-  if code =? 0 then Some (x + y)
-  else if code =? 1 then Some (x - y)
-  else if code =? 2 then Some (x * y)
-  else if code =? 3 then (if y =? 0 then None else Some (Z.quot x y))     (* integer / *)
-  else if code =? 4 then (if y =? 0 then None else Some (Z.rem x y))      (* integer % *)
-  else if code =? 5 then Some (if y <? 0 then (if Z.abs x =? 1 then (if Z.even y then 1 else x) else 0) else Z.pow x y)
-  else if code =? 6 then Some (Z.min x y)
-  else Some (Z.max x y).
+Definition zbin (code : Z) (x y : Z) : cres Z :=
+  if code =? 0 then CV Z (x + y)
+  else if code =? 1 then CV Z (x - y)
+  else if code =? 2 then CV Z (x * y)
+  else if code =? 3 then (if y =? 0 then CZero Z else CV Z (Z.quot x y))     (* integer / : zero-divisor convention *)
+  else if code =? 4 then (if y =? 0 then CPanic Z else CV Z (Z.rem x y))     (* integer % : no check, Go panics *)
+  else if code =? 5 then CV Z (if y <? 0 then (if Z.abs x =? 1 then (if Z.even y then 1 else x) else 0) else Z.pow x y)
+  else if code =? 6 then CV Z (Z.min x y)
+  else CV Z (Z.max x y).
 
-Definition zcmp (code : Z) (x y : Z) : option Z :=
+Definition zcmp (code : Z) (x y : Z) : cres Z :=
   let b := if code =? 0 then x >? y
            else if code =? 1 then x >=? y
            else if code =? 2 then x <? y
            else if code =? 3 then x <=? y
            else if code =? 4 then x =? y
            else negb (x =? y) in
-  Some (if b then 1 else 0).
+  CV Z (if b then 1 else 0).
 
 Definition zun (code : Z) (x : Z) : Z :=
   if code =? 0 then - x
@@ -33,9 +33,9 @@ Definition zun (code : Z) (x : Z) : Z :=
 
 Inductive zop :=
 | ZBase (o : op Z)
-| ZBin (code : Z) (a b : nat) (m : mode)
+| ZBin (code : Z) (a b : nat) (m : mode) (api : bool)
 | ZBinS (code : Z) (t : nat) (s : Z) (lft : bool) (m : mode)
-| ZCmp (code : Z) (a b : nat) (same : bool) (m : cmode)
+| ZCmp (code : Z) (a b : nat) (same : bool) (m : cmode) (api : bool)
 | ZCmpS (code : Z) (t : nat) (s : Z) (lft same : bool) (m : cmode)
 | ZUn (code : Z) (a : nat) (m : mode).
 
@@ -49,26 +49,32 @@ Definition of_oresult (σ0 : store Z) (r : store Z * oresult) : store Z * outcom
 Definition zstep_model (σ : store Z) (o : zop) : store Z * outcome Z :=
   match o with
   | ZBase b => step_model Z 0 σ b
-  | ZBin code a b m =>
+  | ZBin code a b m api =>
     if (6 <=? code) then
       of_oresult σ (eng_minmax_vv Z 0 Z.add (zbin code) σ a b
-                      (match m with MUnsafe => CUnsafe | MReuse r => CReuse r | _ => CSafe end))
+                      (match m with MUnsafe => CUnsafe | MReuse r => CReuse r | MIncr r => CIncr r | MSafe => CSafe end))
+    else if api then
+      of_oresult σ (api_arith Z 0 Z.add (zbin code) σ a b m (eng_arith_vv Z 0 Z.add (zbin code)))
     else of_oresult σ (eng_arith_vv Z 0 Z.add (zbin code) σ a b m)
   | ZBinS code t s lft m => of_oresult σ (eng_arith_scalar Z 0 Z.add (zbin code) σ t s lft m)
-  | ZCmp code a b same m => of_oresult σ (eng_cmp_vv Z 0 Z.add (zcmp code) σ a b same m)
+  | ZCmp code a b same m api =>
+    if api then of_oresult σ (api_cmp Z 0 Z.add (zcmp code) σ a b same m)
+    else of_oresult σ (eng_cmp_vv Z 0 Z.add (zcmp code) σ a b same m)
   | ZCmpS code t s lft same m => of_oresult σ (eng_cmp_scalar Z 0 Z.add (zcmp code) σ t s lft same m)
   | ZUn code a m => of_oresult σ (eng_unary Z 0 Z.add (zun code) σ a m)
   end.
 
 (* SPEC: coordinate-wise on logical contents, delivered according to the option mode.
    None = not determined by the property (e.g. an integer zero divisor). *)
+Definition cres_val (c : cres Z) : option Z := match c with CV _ v => Some v | _ => None end.
+
 Definition all_some {A} (l : list (option A)) : option (list A) :=
   fold_right (fun o acc => match o, acc with Some x, Some r => Some (x :: r) | _, _ => None end) (Some []) l.
 
 Definition mode_code (m : mode) : Z * nat :=
   match m with MSafe => (0, O) | MUnsafe => (1, O) | MReuse r => (2, r) | MIncr r => (3, r) end.
 Definition cmode_code (m : cmode) : Z * nat :=
-  match m with CSafe => (0, O) | CUnsafe => (1, O) | CReuse r => (2, r) end.
+  match m with CSafe => (0, O) | CUnsafe => (1, O) | CReuse r => (2, r) | CIncr r => (3, r) end.
 
 Definition spec_vals_deliver (ς : sstate Z) (ta : nat) (sh : list Z) (vs : list (option Z))
            (mc : Z * nat) (fresh_cm : bool) : option (sstate Z * outcome Z) :=
@@ -84,12 +90,12 @@ Definition spec_vals_deliver (ς : sstate Z) (ta : nat) (sh : list Z) (vs : list
 Definition zstep_spec (ς : sstate Z) (o : zop) : option (sstate Z * outcome Z) :=
   match o with
   | ZBase b => step_spec Z 0 ς b
-  | ZBin code a b m =>
+  | ZBin code a b m _ =>
     match sget Z ς a, sget Z ς b with
     | Some x, Some y =>
       if negb (shape_eq (s_shape x) (s_shape y)) then Some (ς, RErr Z)
       else spec_vals_deliver ς a (s_shape x)
-             (map2 (zbin code) (slogical Z 0 ς x) (slogical Z 0 ς y)) (mode_code m)
+             (map2 (fun p q => cres_val (zbin code p q)) (slogical Z 0 ς x) (slogical Z 0 ς y)) (mode_code m)
              (if 6 <=? code then false else s_cm x)
     | _, _ => None
     end
@@ -97,22 +103,22 @@ Definition zstep_spec (ς : sstate Z) (o : zop) : option (sstate Z * outcome Z) 
     match sget Z ς t with
     | Some x =>
       spec_vals_deliver ς t (s_shape x)
-        (map (fun v => if lft then zbin code v s else zbin code s v) (slogical Z 0 ς x)) (mode_code m) (s_cm x)
+        (map (fun v => cres_val (if lft then zbin code v s else zbin code s v)) (slogical Z 0 ς x)) (mode_code m) (s_cm x)
     | None => None
     end
-  | ZCmp code a b same m =>
+  | ZCmp code a b same m _ =>
     match sget Z ς a, sget Z ς b with
     | Some x, Some y =>
       if negb (shape_eq (s_shape x) (s_shape y)) then Some (ς, RErr Z)
       else spec_vals_deliver ς a (s_shape x)
-             (map2 (zcmp code) (slogical Z 0 ς x) (slogical Z 0 ς y)) (cmode_code m) false
+             (map2 (fun p q => cres_val (zcmp code p q)) (slogical Z 0 ς x) (slogical Z 0 ς y)) (cmode_code m) false
     | _, _ => None
     end
   | ZCmpS code t s lft same m =>
     match sget Z ς t with
     | Some x =>
       spec_vals_deliver ς t (s_shape x)
-        (map (fun v => if lft then zcmp code v s else zcmp code s v) (slogical Z 0 ς x)) (cmode_code m) false
+        (map (fun v => cres_val (if lft then zcmp code v s else zcmp code s v)) (slogical Z 0 ς x)) (cmode_code m) false
     | None => None
     end
   | ZUn code a m =>
